@@ -1,6 +1,10 @@
-(* C05 (handler level) -- no message can crash the handler; invalid messages end in a clean abort.
-   Model: Model/Handler.v.  The validity of a message for its round (decode + Verify/Store succeed) is the
-   oracle bit [m_valid]; totality of the per-round decoders/verifiers is the subject of the other C05 files.
+(* C05 (handler level) -- no message can crash the handler; invalid messages end in a clean abort; a message on
+   which the round code PANICS (while decoding / verifying / storing it, or later in Finalize of its round) ends in a
+   clean abort naming nobody.
+   Model: Model/Handler.v.  What the round code does with a message is the oracle pair [m_valid] (decode +
+   Verify/Store succeed) and [m_panic] (the round code panics on it, and where); totality of the per-round
+   decoders/verifiers is the subject of the other C05 files.  [accept] = Accept as it is (deferred recoverToAbort),
+   [accept_v0] = Accept before that fix (its body, nothing recovered).
    Only statements, each closed by [exact] of a lemma proved in Proofs/HandlerProofs.v. *)
 From Coq Require Import List NArith ZArith Bool Arith Lia.
 From MPS Require Import Model.Handler Proofs.HandlerProofs.
@@ -61,6 +65,85 @@ Theorem C05_foreign_view_clean_abort : forall vh ofp self n ssid proto sh s m,
 Proof. exact foreign_view_clean_abort. Qed.
 Print Assumptions C05_foreign_view_clean_abort.
 
+(* -- a panic of the round code is contained --
+   Whenever the call would have crashed the handler without the recovery ([accept_v0] ends [Panicked]), on ANY
+   reachable running state and for ANY message (whichever message of whichever round the round code panics on, in
+   verify or in Finalize, directly or through a queued message after a round change):
+   it is the round code that panicked (code 3), never a channel operation; the session had not ended; and Accept
+   leaves: runtime Running (no escaping panic), error "panic while processing message" with NO culprit, no result,
+   channel closed exactly once, abort notice sent iff the channel had room; round number, reached rounds, both
+   queues (the message panicked on stays stored) and view digests are exactly what the body had done up to the panic. *)
+Theorem C05_handler_panic_contained : forall vh ofp self n ssid proto sh s m,
+  reachable true vh ofp self n ssid proto sh s -> h_rt s = Running ->
+  is_panicked (h_rt (accept_v0 vh ofp s m)) = true ->
+  let b := accept_v0 vh ofp s m in
+  let s' := accept vh ofp s m in
+  h_rt b = Panicked 3
+  /\ terminal s = false /\ h_closes s = 0
+  /\ h_rt s' = Running
+  /\ h_err s' = Some ([], EPanic) /\ h_res s' = false /\ result_class s' = 2 /\ terminal s' = true
+  /\ h_closes s' = 1
+  /\ h_cur s' = h_cur b /\ h_reached s' = h_reached b /\ h_qb s' = h_qb b /\ h_qp s' = h_qp b
+  /\ h_hashes s' = h_hashes b
+  /\ h_out s' = (if h_pending b <? capacity b then h_out b ++ [mkOut None 0 false 0%N] else h_out b)
+  /\ h_pending s' = (if h_pending b <? capacity b then S (h_pending b) else h_pending b).
+Proof. exact panic_contained. Qed.
+Print Assumptions C05_handler_panic_contained.
+
+(* the same for any state satisfying the lifecycle invariant (no reachability needed) *)
+Theorem C05_handler_panic_contained_inv : forall vh ofp s m,
+  life_ok s -> h_rt s = Running ->
+  is_panicked (h_rt (accept_v0 vh ofp s m)) = true ->
+  h_rt (accept_v0 vh ofp s m) = Panicked 3
+  /\ terminal s = false /\ h_closes s = 0
+  /\ recovered_from (accept_v0 vh ofp s m) (accept vh ofp s m).
+Proof. exact panic_contained_inv. Qed.
+Print Assumptions C05_handler_panic_contained_inv.
+
+(* on every other call the two handlers do the same *)
+Theorem C05_handler_accept_v0_agrees : forall vh ofp s m,
+  is_panicked (h_rt (accept_v0 vh ofp s m)) = false -> accept vh ofp s m = accept_v0 vh ofp s m.
+Proof. exact accept_v0_agrees. Qed.
+Print Assumptions C05_handler_accept_v0_agrees.
+
+(* The direct case: a fresh message of the current round that the round would accept, sent under our broadcast
+   view, of a kind the round expects, processed now, on which the round code panics: the message is stored
+   (handler.go stores before it verifies), then the session is aborted in exactly that state. *)
+Theorem C05_handler_panicking_message_current : forall vh ofp self n ssid proto sh s m,
+  reachable true vh ofp self n ssid proto sh s ->
+  h_rt s = Running -> terminal s = false ->
+  can_accept s m = true -> duplicate s m = false ->
+  0 < m_round m -> m_round m = h_cur s ->
+  m_valid m = true -> panics_verify m = true -> same_view s m = true ->
+  (if m_bcast m then sh_bcast (h_shape s) (m_round m) = true
+   else sh_p2p (h_shape s) (m_round m) <> NoP2P
+        /\ (sh_bcast (h_shape s) (m_round m) = false \/ slot s true (m_round m) (m_from m) <> None)) ->
+  let s' := accept vh ofp s m in
+  s' = abort (store s m) (Some ([], EPanic))
+  /\ h_rt (accept_v0 vh ofp s m) = Panicked 3
+  /\ h_closes s' = 1 /\ result_class s' = 2 /\ h_err s' = Some ([], EPanic) /\ h_rt s' = Running
+  /\ h_cur s' = h_cur s
+  /\ slot s' (m_bcast m) (m_round m) (m_from m) = Some m.
+Proof. exact panicking_message_current. Qed.
+Print Assumptions C05_handler_panicking_message_current.
+
+(* conversely the error "panic while processing message" is reported ONLY for a call in which the round code
+   panicked, and it names nobody *)
+Theorem C05_handler_epanic_only_by_recovery : forall fixed vh ofp self n ssid proto sh s m c,
+  reachable fixed vh ofp self n ssid proto sh s ->
+  h_err s = None ->
+  h_err (accept vh ofp s m) = Some (c, EPanic) ->
+  c = [] /\ is_panicked (h_rt (accept_v0 vh ofp s m)) = true.
+Proof. exact epanic_only_by_recovery. Qed.
+Print Assumptions C05_handler_epanic_only_by_recovery.
+
+(* while no queued or arriving message makes the round code panic ([calm]), the recovery never fires *)
+Theorem C05_handler_calm_accept : forall vh ofp s m,
+  m_panic m = NoPanic -> calm s -> life_ok s ->
+  accept vh ofp s m = accept_v0 vh ofp s m /\ calm (accept vh ofp s m).
+Proof. exact calm_accept. Qed.
+Print Assumptions C05_handler_calm_accept.
+
 (* -- non-vacuity: an invalid broadcast, and an invalid p2p message after the sender's broadcast -- *)
 Example C05_ex_invalid_broadcast :
   let m := ex_b 1 2 0 false in
@@ -93,4 +176,62 @@ Example C05_ex_foreign_view :
   h_rt s = Running /\ terminal s = false /\ can_accept s m = true /\ duplicate s m = false
   /\ m_round m = h_cur s /\ same_view s m = false
   /\ h_err (accept ex_vh ex_ofp s m) = Some ([], EBroadcastHash) /\ h_closes (accept ex_vh ex_ofp s m) = 1.
+Proof. vm_compute. repeat split. Qed.
+
+(* -- non-vacuity for the recovered panics (n = 3, party 0; rounds: 2 = broadcast + p2p, 3 = broadcast) -- *)
+(* (a) the round code panics on a broadcast of the current round: stored, then clean abort; round not advanced *)
+Example C05_ex_panic_on_current_broadcast :
+  let m := ex_bx 1 2 0 PanicVerify in
+  reachable true ex_vh ex_ofp 0 3 7 9 ex_shape ex_start
+  /\ h_rt ex_start = Running /\ terminal ex_start = false
+  /\ can_accept ex_start m = true /\ duplicate ex_start m = false /\ m_round m = h_cur ex_start
+  /\ m_valid m = true /\ panics_verify m = true /\ same_view ex_start m = true
+  /\ sh_bcast (h_shape ex_start) (m_round m) = true
+  /\ h_rt (accept_v0 ex_vh ex_ofp ex_start m) = Panicked 3
+  /\ h_rt (accept ex_vh ex_ofp ex_start m) = Running
+  /\ h_err (accept ex_vh ex_ofp ex_start m) = Some ([], EPanic)
+  /\ h_closes (accept ex_vh ex_ofp ex_start m) = 1
+  /\ h_cur (accept ex_vh ex_ofp ex_start m) = 2
+  /\ slot (accept ex_vh ex_ofp ex_start m) true 2 1 = Some m.
+Proof. split; [exists []; reflexivity|]. vm_compute. repeat split. Qed.
+
+(* (b) the round code panics on a QUEUED round-3 broadcast when round 2 completes: by then the round-3 message of
+   this party has been forwarded and the round has advanced; the abort notice follows it *)
+Example C05_ex_panic_on_queued_message :
+  let early := ex_bx 1 3 102 PanicVerify in
+  let s := run_api true ex_vh ex_ofp ex_start
+             [Accept early; Accept (ex_b 1 2 0 true); Accept (ex_p 1 2 0 true); Accept (ex_p 2 2 0 true); Drain 3] in
+  let m := ex_b 2 2 0 true in            (* the last round-2 message: a perfectly good one *)
+  h_err s = None /\ h_cur s = 2 /\ m_panic m = NoPanic
+  /\ h_rt (accept_v0 ex_vh ex_ofp s m) = Panicked 3
+  /\ h_rt (accept ex_vh ex_ofp s m) = Running
+  /\ h_err (accept ex_vh ex_ofp s m) = Some ([], EPanic)
+  /\ h_closes (accept ex_vh ex_ofp s m) = 1
+  /\ h_cur (accept ex_vh ex_ofp s m) = 3
+  /\ skipn (length (h_out s)) (h_out (accept ex_vh ex_ofp s m)) = [mkOut None 3 true 102%N; mkOut None 0 false 0%N]
+  /\ map fst (h_hashes (accept ex_vh ex_ofp s m)) = [2].
+Proof. vm_compute. repeat split. Qed.
+
+(* (c) Finalize of round 2 panics on an input that passed verification: the view digest of round 2 has been recorded,
+   nothing of round 3 was forwarded, the round did not advance *)
+Example C05_ex_panic_in_finalize :
+  let s := run_api true ex_vh ex_ofp ex_start
+             [Accept (ex_b 1 2 0 true); Accept (ex_px 1 2 0 PanicFinalize); Accept (ex_p 2 2 0 true); Drain 3] in
+  let m := ex_b 2 2 0 true in
+  h_err s = None /\ h_cur s = 2 /\ h_hashes s = []
+  /\ h_rt (accept_v0 ex_vh ex_ofp s m) = Panicked 3
+  /\ h_rt (accept ex_vh ex_ofp s m) = Running
+  /\ h_err (accept ex_vh ex_ofp s m) = Some ([], EPanic)
+  /\ h_closes (accept ex_vh ex_ofp s m) = 1
+  /\ h_cur (accept ex_vh ex_ofp s m) = 2
+  /\ skipn (length (h_out s)) (h_out (accept ex_vh ex_ofp s m)) = [mkOut None 0 false 0%N]
+  /\ map fst (h_hashes (accept ex_vh ex_ofp s m)) = [2].
+Proof. vm_compute. repeat split. Qed.
+
+(* (d) a message the round REJECTS is rejected whatever its panic flag says; one sent under a foreign view is never
+   handed to the round code *)
+Example C05_ex_rejected_before_panic :
+  h_err (accept ex_vh ex_ofp ex_start (mkMsg 7 9 1 None 2 true true 0 21 false PanicVerify)) = Some ([1], EVerify)
+  /\ (let s := run_api true ex_vh ex_ofp ex_start (firstn 5 ex_honest) in
+      h_err (accept ex_vh ex_ofp s (ex_bx 1 3 999 PanicVerify)) = Some ([], EBroadcastHash)).
 Proof. vm_compute. repeat split. Qed.
